@@ -88,7 +88,7 @@ def join(a, b):
                 for x in (a.items or ()) + (b.items or ()):
                     e = join(e, x)
                 return AV("list", a.alias | b.alias, elem=join(elem, e))
-        flags = (a.flags & b.flags) | ((a.flags | b.flags) & {"uncertain", "none"})
+        flags = (a.flags & b.flags) | ((a.flags | b.flags) & {"uncertain", "none", "shallow"})
         if a.kind == "scalar":
             flags = a.flags & b.flags
         ref = a.ref if a.ref == b.ref else None
@@ -1306,7 +1306,8 @@ class _State:
                 flags = {"as-is"}
             else:
                 # map(AttributeDict, dicts): AttributeDict(x) is a new (shallow) dict
-                item = AV("dict", F0, elem=SCALAR)
+                item = AV("dict", F0, elem=SCALAR,
+                          flags={"shallow"} if (e is not None and all_alias(e)) else F0)
                 flags = set()
             return AV("lod", F0, elem=item, flags=flags)
         if cls.name in ("DtProxy", "ReProxy", "StrProxy"):
@@ -1429,11 +1430,15 @@ class _State:
                     e = join(e, c.items[1])
             for k, v in kwargs.items():
                 e = join(e, v)
-            return AV("dict", F0, elem=e if e is not None else SCALAR, flags={"attr"})
+            sh = {"shallow"} if any(a.kind in ("dict", "unknown") and all_alias(a) for a in pa) else set()
+            return AV("dict", F0, elem=e if e is not None else SCALAR, flags={"attr"} | sh)
         if beh == "deepcopy":
             return self.deep(a0) if a0 is not None else UNKNOWN
         if beh == "shallowcopy":
-            return a0.with_(alias=F0) if a0 is not None else UNKNOWN
+            if a0 is None:
+                return UNKNOWN
+            sh = {"shallow"} if all_alias(a0) else set()
+            return a0.with_(alias=F0, flags=a0.flags | sh)
         if beh == "getattr":
             if len(pa) >= 2 and isinstance(node, ast.Call) and len(node.args) >= 2 \
                     and isinstance(node.args[1], ast.Constant) and isinstance(node.args[1].value, str):
